@@ -117,19 +117,39 @@ func SetRun(run int, sc SetScenario, T time.Duration) []SetRec {
 				touch(pi)
 				add(pi, Rec{Ev: "req", Node: id, Occ: k, Ok: true})
 				add(-1, Rec{Ev: "preq", Node: id})
+				// a task that writes variables is answered with the last value of each domain
+				vars := map[string]int{}
+				res := map[string]any{}
+				if pi >= 0 {
+					if n := sc.Members[pi].P.Node(id); n != nil {
+						for _, w := range n.Writes {
+							if d := sc.Members[pi].P.Dom[w]; len(d) > 0 {
+								vars[w] = d[len(d)-1]
+								res[w] = d[len(d)-1]
+							}
+						}
+					}
+				}
+				do := func() {
+					if len(res) > 0 {
+						t.Do(bpmn.DoWithResults(res))
+					} else {
+						t.Do()
+					}
+				}
 				if sc.HoldMs > 0 {
 					go func() {
 						time.Sleep(time.Duration(sc.HoldMs) * time.Millisecond)
 						mu.Lock()
-						add(pi, Rec{Ev: "ans", Node: id, Occ: k})
+						add(pi, Rec{Ev: "ans", Node: id, Occ: k, Vars: copyVars(vars)})
 						add(-1, Rec{Ev: "pans", Node: id})
 						mu.Unlock()
-						t.Do()
+						do()
 					}()
 				} else {
-					add(pi, Rec{Ev: "ans", Node: id, Occ: k})
+					add(pi, Rec{Ev: "ans", Node: id, Occ: k, Vars: copyVars(vars)})
 					add(-1, Rec{Ev: "pans", Node: id})
-					go t.Do()
+					go do()
 				}
 			case bpmn.CompletionTrace:
 				id := nodeId(t.Node)
@@ -302,7 +322,18 @@ func SetRun(run int, sc SetScenario, T time.Duration) []SetRec {
 					ceased = true
 				}
 			}
-			add(i, Rec{Ev: "fin", Ok: ceased, Vars: copyVars(sc.Members[i].P.Vars0)})
+			// (a member's variables cannot be read through the set's API: the final store recorded
+			// here is what the answers wrote over the initial values; what is OBSERVED of the
+			// variables is which branches the member's conditions take)
+			fv := copyVars(sc.Members[i].P.Vars0)
+			for _, r := range log {
+				if r.Proc == i && r.Ev == "ans" {
+					for k, v := range r.Vars {
+						fv[k] = v
+					}
+				}
+			}
+			add(i, Rec{Ev: "fin", Ok: ceased, Vars: fv})
 		}
 	}
 	add(-1, Rec{Ev: "setfin"})
